@@ -687,7 +687,7 @@ impl CompressedResponse {
                 encoder
                     .write_all(&bytes)
                     .expect("Failed to compress using Zstd!");
-                encoder.flush().expect("Failed to compress using Zstd!");
+                encoder.finish().expect("Failed to compress using Zstd!");
 
                 let buffer = buffer.into_inner();
                 buffer.freeze()
